@@ -145,6 +145,21 @@ def table_entries(F):
             cl = strip(e["args"][1])
             inner = size_poly(cl["body"]) if cl.get("k") == "Closure" else None
             return Poly.atom("END") * inner + (Poly.const(1) - Poly.atom("END")) * size_poly(e["args"][0])
+        if k == "Match" and tir.place(e["scrut"]) == "game.end" and len(e["arms"]) == 2:
+            # match &game.end { Some(e) => e.bytes.0.len(), None => End::size(ver) }
+            some = none = None
+            for a in e["arms"]:
+                p = a["pat"]
+                while p.get("k") == "Ref":
+                    p = p["pat"]
+                if p.get("k") == "TupleStruct" and (p.get("path") or "").endswith("Some") and not a.get("guard"):
+                    some = a["body"]
+                elif not a.get("guard"):
+                    none = a["body"]
+            if some is not None and none is not None:
+                return Poly.atom("END") * size_poly(some) + (Poly.const(1) - Poly.atom("END")) * size_poly(none)
+        if k == "Block" and not e.get("stmts") and e.get("tail") is not None:
+            return size_poly(e["tail"])
         if k == "Cast":
             # `codes.actual_size as u16 as usize`
             p = tir.place(e)
@@ -393,11 +408,12 @@ class Writer:
         c = strip(c)
         if c.get("k") == "LetCond" and (c["pat"].get("path") or "").endswith("Some"):
             return self.indicator_place(self.resolve(tir.place(c["init"])))
+        off = tir.opt_field_flag(c)
+        if off and (off[0] or "").endswith("quirks") and off[1] == "double_game_end":
+            return Poly.atom("DOUBLE")
         if c.get("k") == "MethodCall" and c["method"] == "map_or":
             r = tir.place(c["recv"]) or ""
             cl = strip(c["args"][1])
-            if r.endswith("quirks") and cl.get("k") == "Closure" and tir.pretty(cl["body"]).endswith(".double_game_end") and strip(c["args"][0]).get("v") is False:
-                return Poly.atom("DOUBLE")
             if r.endswith(".validity") and strip(c["args"][0]).get("v") is True and cl.get("k") == "Closure":
                 b = strip(cl["body"])
                 if b.get("k") == "MethodCall" and b["method"] == "get_bit":
@@ -408,11 +424,18 @@ class Writer:
 
     def loop_count(self, n):
         it = tir.pretty(n["iter"])
-        if it in ("self.id.values().iter().enumerate()",):
+        # the collection iterated, looking through borrows and element-preserving adaptors (one iteration per element)
+        src = strip(n["iter"])
+        adaptors = []
+        while src.get("k") == "MethodCall" and src["method"] in ("iter", "into_iter", "iter_mut", "enumerate", "copied", "cloned", "values", "by_ref") and not src.get("args"):
+            adaptors.append(src["method"])
+            src = strip(src["recv"])
+        pl = tir.place(src) or ""
+        if pl == "self.id" and "values" in adaptors:
             return Poly.atom("FRAMES")
-        if it in ("&self.ports", "self.ports.iter()"):
+        if pl == "self.ports":
             return Poly.atom("PORTS")
-        if it == "payload_sizes.sizes":
+        if pl.endswith(".sizes") and "PayloadSizes" in (strip(src.get("base") or {}).get("ty") or ""):
             return Poly.atom("N_TABLE")
         i = strip(n["iter"])
         if i.get("k") == "Struct" and (i.get("path") or "").endswith("ops::Range"):
@@ -564,16 +587,16 @@ class RawSize:
                 return Poly.atom("END") * self.ev(f["body"], counts, env)
             if pl == "game.gecko_codes" and f.get("k") == "Path" and f.get("path") == "io::slippi::ser::gecko_codes_size":
                 return Poly.atom("GECKO") * self.gecko_size()
-        if k == "Match":
-            sc = strip(e["scrut"])
-            if sc.get("k") == "MethodCall" and sc["method"] == "map_or" and (tir.place(sc["recv"]) or "").endswith("quirks") and tir.pretty(strip(sc["args"][1]).get("body") or {}).endswith(".double_game_end"):
-                t = f_ = None
-                for a in e["arms"]:
-                    if a["pat"].get("k") == "Lit" and a["pat"]["e"].get("v") is True:
-                        t = self.ev(a["body"], counts, env)
-                    else:
-                        f_ = self.ev(a["body"], counts, env)
+        bb = tir.bool_branch(e) if k in ("Match", "If") else None
+        if bb is not None and bb[2] is not None:
+            sc = strip(bb[0])
+            off = tir.opt_field_flag(sc)
+            if off and (off[0] or "").endswith("quirks") and off[1] == "double_game_end":
+                t = self.ev(bb[1], counts, env)
+                f_ = self.ev(bb[2], counts, env)
                 return Poly.atom("DOUBLE") * t + (Poly.const(1) - Poly.atom("DOUBLE")) * f_
+        if k == "Block" and not e.get("stmts") and e.get("tail") is not None:
+            return self.ev(e["tail"], counts, env)
         raise Unsupported(e, "raw_size term outside the fragment: " + tir.pretty(e)[:90])
 
     def gecko_size(self):
